@@ -138,13 +138,40 @@ def safe_indexing(f):
                         arrays[s[1][1]] = int_of(init[2])
                     if init[0] == "array":
                         arrays[s[1][1]] = len(init[1])
+    # indices obtained from position() on the same base are in range
+    pos_pairs = set()
+    for n in walk(f["body"]):
+        if n[0] == "block":
+            for s in n[1]:
+                if s[0] == "local" and s[1][0] == "p_ident" and s[3] is not None:
+                    t = show(s[3])
+                    m = _position_base(s[3])
+                    if m:
+                        pos_pairs.add((m, s[1][1]))
+        if n[0] == "mcall" and n[2] == "map" and len(n[3]) == 1 and n[3][0][0] == "closure":
+            m = _position_base(n[1])
+            clo = n[3][0]
+            if m and len(clo[1]) == 1 and clo[1][0][0] == "p_ident":
+                pos_pairs.add((m, clo[1][0][1]))
     found = False
     for n in walk(f["body"]):
         if n[0] == "index" and n[2][0] != "range":
             found = True
             base = path_of(unblock(n[1]))
+            if (base, path_of(n[2])) in pos_pairs:
+                continue
             iv = interval(n[2], env, lens)
             bound = chunk_elems.get(base, arrays.get(base))
             if bound is None or iv[1] >= bound:
                 return False
     return found
+
+
+def _position_base(e):
+    """BASE.iter().position(..)[.expect(..)|.unwrap()|?] -> 'BASE'"""
+    e = unblock(e)
+    while e[0] == "try" or (e[0] == "mcall" and e[2] in ("expect", "unwrap")):
+        e = e[1]
+    if e[0] == "mcall" and e[2] in ("position", "rposition") and e[1][0] == "mcall" and e[1][2] == "iter":
+        return path_of(e[1][1])
+    return None
